@@ -346,11 +346,16 @@ func PagesVar(n int) int {
 	return t
 }
 
+// (own request types: a field nobody outside the function writes stays what it was across
+// the exchange)
+type pageReqF struct{ Index uint8 }
+type pageReqB struct{ Index uint8 }
+
 func PagesField(n int) int {
-	req := &pageReq{}
+	req := &pageReqF{}
 	t := 0
 	for j := 0; j < n; j++ {
-		t += Opaque(req)
+		t += OpaqueF(req)
 		req.Index++
 	}
 	return t
@@ -358,14 +363,17 @@ func PagesField(n int) int {
 
 // PagesBad skips a page.
 func PagesBad(n int) int {
-	req := &pageReq{}
+	req := &pageReqB{}
 	t := 0
 	for j := 0; j < n; j++ {
-		t += Opaque(req)
+		t += OpaqueB(req)
 		req.Index += 2
 	}
 	return t
 }
+
+func OpaqueF(r *pageReqF) int { opaqueSink += int(r.Index); return opaqueSink }
+func OpaqueB(r *pageReqB) int { opaqueSink += int(r.Index); return opaqueSink }
 
 var opaqueSink int
 
